@@ -7,7 +7,7 @@ from pyvc.contract import contract, library_only
 
 def hook_cases(tier, seed):
     return [(st, how) for st in ("flat", "sub_rand", "sub_nonrand", "list_rand", "list_nonrand", "list_randsz", "nested",
-                                 "nested_under_nonrand", "inherit", "inherit_derived")
+                                 "nested_under_nonrand", "inherit", "inherit_derived", "mode_off")
             for how in ("randomize", "randomize_with", "vsc.randomize_with", "vsc.randomize")]
 
 
@@ -18,8 +18,8 @@ def hook_cases(tier, seed):
            "vsc.model.field_array_model.FieldArrayModel.pre_randomize", "vsc.model.field_array_model.FieldArrayModel.post_randomize",
            "vsc.methods.randomize", "vsc.methods.randomize_with"],
           hook_cases, kind="bounded",
-          bound="10 object structures (flat, random / non-random sub-object, fixed / non-random / random-size lists of objects, "
-                "two-level nesting, nesting under a non-random object, hooks inherited from a base / defined only on a derived class; whole-object rand_mode has no public setter in this version) x 4 ways of calling "
+          bound="11 object structures (flat, random / non-random sub-object, fixed / non-random / random-size lists of objects, "
+                "two-level nesting, nesting under a non-random object, hooks inherited from a base / defined only on a derived class, a random sub-object with rand_mode switched off) x 4 ways of calling "
                 "(obj.randomize, obj.randomize_with, vsc.randomize_with(obj), vsc.randomize(obj)) x 4 consecutive calls; every hook "
                 "logs its object, pre_randomize assigns a non-random field the solver must see, post_randomize records the values")
 def c_hooks(c, structure, how):
@@ -125,6 +125,9 @@ def c_hooks(c, structure, how):
             elif structure == "sub_nonrand":
                 self.sub = vsc.attr(Leaf("top.sub"))
                 self.quiet_objs = [self.sub]
+            elif structure == "mode_off":
+                self.sub = vsc.rand_attr(Leaf("top.sub"))
+                self.quiet_objs = [self.sub]
             elif structure == "inherit":
                 self.sub = vsc.rand_attr(Derived())
                 self.rand_objs = [self.sub]
@@ -155,6 +158,8 @@ def c_hooks(c, structure, how):
                 self.items.size == 3
     try:
         top = Top()
+        if structure == "mode_off":
+            top.sub.rand_mode = False         # a random sub-object switched off: it is not random in the call
         objs = [top] + top.rand_objs
         for call in range(4):
             del log[:]
